@@ -179,6 +179,17 @@ prop('C15', 'other',
      'NOT covered (not encodable): npz/lst/csv files, the plotting loader TDSData, replay from csv; store_z/f/h/i arrays.',
      'symbolic tag flow through the real storage code + z3', 'DESIGN.md 3/C15')
 
+prop('C14', 'model_checking',
+     'PARTIAL. On the time-grid state machine of the real TDS code: the exit state of the real TDS.run loop (test false without bust) is '
+     't = tf with every switch time <= tf dispatched and success reported; from every such state with a later end time the real '
+     'TDS.init_resume re-establishes the C06 loop invariant with the event pointer unmoved, positive progress and the fixed step '
+     'respected, so by the C06 induction events are neither lost nor repeated and stamps keep increasing across an interruption '
+     '(at, before or after an event); thorough: bounded split-vs-unsplit cross-check; System.reset + setup re-creates addresses and '
+     'names and the repeated power flow reproduces the solution.',
+     'NOT covered (not encodable): dill snapshots, fix_view_arrays after unpickling, continuation in another process; trajectory '
+     'equality up to discretisation error.',
+     'bounded symbolic execution of the real resume code + z3 invariant check', 'DESIGN.md 3/C14')
+
 ORDER = ['C%02d' % i for i in range(1, 21)]
 checks, na = [], []
 for pid in ORDER:
